@@ -167,7 +167,7 @@ package modbus
 //@   shared[C14] conn, address
 //@   ensures[C14] muState == 0
 //@   safety[C08]
-//@   ensures[C08.failedconnect] err != nil ==> c.conn == old(c.conn) && c.address == old(c.address)
+//@   ensures[C08.failedconnect] err != nil ==> c.conn == atlock(c.conn) && c.address == atlock(c.address)
 //@   ensures[C08] err == nil ==> c.address == address
 
 //@ func (c *Client) Close() (err error)
